@@ -3,7 +3,8 @@ import MJ.Proofs.StmtRel
 # Statements compile correctly (C03 stage 3)
 
 Simulation between the reference semantics (`exec`, scopes as heap cells) and the model VM (frames)
-for the statements of `simpleStmt`: text, emit, `set`, `if`, `with`, `for`.  The relation `Rel`
+for the statements of `simpleStmt`: text, emit, `set`, set/filter blocks, `if`, `with`, `for`,
+`break`, `continue`.  The relation `Rel`
 pairs the visible cells with the frames (`FramesRel`: same answer for every variable, including
 `loop`), the output with the innermost capture buffer.  By induction on the fuel of the reference
 execution, for statements, blocks, `with` bindings and loop iterations together (`sim_stmt_all`);
@@ -104,40 +105,45 @@ theorem relForIter_oof_mono (t : Target) (iter : Expr) (flt : Option Expr) (b : 
   | some c => simp only [relForIter]; exact relExpr_oof_mono c _ _ (relExpr_oof_mono iter _ a h)
 
 mutual
-theorem relStmt_oof_mono : ∀ (st : Stmt) (b : Nat) (a : Aux), a.oof = true → (relStmt st b a).2.oof = true
-  | .text t, b, a, h => by simp [relStmt, h]
-  | .emit e, b, a, h => by simp [relStmt, relExpr_oof_mono e b a h]
-  | .set t e, b, a, h => by simp [relStmt, relExpr_oof_mono e b a h]
-  | .ifS c t [], b, a, h => by
-    simp only [relStmt]; exact relBlock_oof_mono t _ _ (relExpr_oof_mono c b a h)
-  | .ifS c t (f :: fs), b, a, h => by
+theorem relStmt_oof_mono : ∀ (st : Stmt) (b : Nat) (a : Aux) (lc : Option LoopCtx), a.oof = true →
+    (relStmt st b a lc).1.2.oof = true
+  | .text t, b, a, lc, h => by simp [relStmt, h]
+  | .emit e, b, a, lc, h => by simp [relStmt, relExpr_oof_mono e b a h]
+  | .set t e, b, a, lc, h => by simp [relStmt, relExpr_oof_mono e b a h]
+  | .ifS c t [], b, a, lc, h => by
+    simp only [relStmt]; exact relBlock_oof_mono t _ _ _ (relExpr_oof_mono c b a h)
+  | .ifS c t (f :: fs), b, a, lc, h => by
     simp only [relStmt]
-    exact relBlock_oof_mono (f :: fs) _ _ (relBlock_oof_mono t _ _ (relExpr_oof_mono c b a h))
-  | .withS binds body, b, a, h => by
-    simp only [relStmt]; exact relBlock_oof_mono body _ _ (relBinds_oof_mono binds _ a h)
-  | .forS t iter flt body [], b, a, h => by
-    simp only [relStmt]; exact relBlock_oof_mono body _ _ (relForIter_oof_mono t iter flt b a h)
-  | .forS t iter flt body (e0 :: es), b, a, h => by
+    exact relBlock_oof_mono (f :: fs) _ _ _ (relBlock_oof_mono t _ _ _ (relExpr_oof_mono c b a h))
+  | .withS binds body, b, a, lc, h => by
+    simp only [relStmt]; exact relBlock_oof_mono body _ _ _ (relBinds_oof_mono binds _ a h)
+  | .forS t iter flt body [], b, a, lc, h => by
+    simp only [relStmt]; exact relBlock_oof_mono body _ _ _ (relForIter_oof_mono t iter flt b a h)
+  | .forS t iter flt body (e0 :: es), b, a, lc, h => by
     simp only [relStmt]
-    exact relBlock_oof_mono (e0 :: es) _ _ (relBlock_oof_mono body _ _ (relForIter_oof_mono t iter flt b a h))
-  | .setBlock x fs body, b, a, h => by
-    simp only [relStmt]; exact relFilters_oof_mono fs _ _ (relBlock_oof_mono body _ a h)
-  | .filterBlock fs body, b, a, h => by
-    simp only [relStmt]; exact relFilters_oof_mono fs _ _ (relBlock_oof_mono body _ a h)
-  | .macroS .., b, a, h => by simp [relStmt]
-  | .callBlock .., b, a, h => by simp [relStmt]
-  | .breakS, b, a, h => by simp [relStmt]
-  | .continueS, b, a, h => by simp [relStmt]
-theorem relBlock_oof_mono : ∀ (ss : List Stmt) (b : Nat) (a : Aux), a.oof = true → (relBlock ss b a).2.oof = true
-  | [], b, a, h => by simp [relBlock, h]
-  | s :: rest, b, a, h => by
-    simp only [relBlock]; exact relBlock_oof_mono rest _ _ (relStmt_oof_mono s b a h)
+    exact relBlock_oof_mono (e0 :: es) _ _ _ (relBlock_oof_mono body _ _ _ (relForIter_oof_mono t iter flt b a h))
+  | .setBlock x fs body, b, a, lc, h => by
+    simp only [relStmt]; exact relFilters_oof_mono fs _ _ (relBlock_oof_mono body _ a _ h)
+  | .filterBlock fs body, b, a, lc, h => by
+    simp only [relStmt]; exact relFilters_oof_mono fs _ _ (relBlock_oof_mono body _ a _ h)
+  | .macroS .., b, a, lc, h => by simp [relStmt]
+  | .callBlock .., b, a, lc, h => by simp [relStmt]
+  | .breakS, b, a, none, h => by simp [relStmt]
+  | .breakS, b, a, some l, h => by simp [relStmt, h]
+  | .continueS, b, a, none, h => by simp [relStmt]
+  | .continueS, b, a, some l, h => by simp [relStmt, h]
+theorem relBlock_oof_mono : ∀ (ss : List Stmt) (b : Nat) (a : Aux) (lc : Option LoopCtx), a.oof = true →
+    (relBlock ss b a lc).1.2.oof = true
+  | [], b, a, lc, h => by simp [relBlock, h]
+  | s :: rest, b, a, lc, h => by
+    simp only [relBlock]; exact relBlock_oof_mono rest _ _ _ (relStmt_oof_mono s b a lc h)
 end
 
-theorem oof_false_of_relBlock {ss b a} (h : (relBlock ss b a).2.oof = false) : a.oof = false := by
+theorem oof_false_of_relBlock {ss b a lc} (h : (relBlock ss b a lc).1.2.oof = false) : a.oof = false := by
   cases ha : a.oof with
   | false => rfl
-  | true => rw [relBlock_oof_mono ss b a ha] at h; cases h
+  | true => rw [relBlock_oof_mono ss b a lc ha] at h; cases h
+
 
 theorem oof_false_of_relBinds {bs b a} (h : (relBinds bs b a).2.oof = false) : a.oof = false := by
   cases ha : a.oof with
@@ -307,15 +313,69 @@ theorem sim_targets : ∀ (ts : List Target) (vs : List Val) (bs : List (String 
 end
 
 
+
+/-! ## `break` / `continue`: what a statement that leaves the loop body early achieves -/
+
+def nWith : List ScopeKind → Nat
+  | [] => 0
+  | .with_ :: r => nWith r + 1
+  | .capture :: r => nWith r
+
+def nCap : List ScopeKind → Nat
+  | [] => 0
+  | .with_ :: r => nCap r
+  | .capture :: r => nCap r + 1
+
+/-- the VM jumped to `tgt` after leaving the scopes `sc` (opened inside the loop body): their
+frames and capture buffers are gone, the operand stack is as before -/
+def Unw (ctx : Scope) (C : List Instr) (σ' : State) (s : VmState) (tgt : Nat) (sc : List ScopeKind) : Prop :=
+  ∃ s', Reach ctx C s s' ∧ s'.pc = tgt ∧ s'.stack = s.stack ∧
+    s'.frames.tail = (s.frames.drop (nWith sc)).tail ∧
+    s'.frames.head?.map (·.loop) = (s.frames.drop (nWith sc)).head?.map (·.loop) ∧
+    s'.outs = (σ'.out :: s.outs.tail).drop (nCap sc)
+
+def jumpTarget : Flow → LoopCtx → Nat
+  | .brk, l => l.exit
+  | _, l => l.iter
+
+/-- the postcondition of a statement: it ends normally behind its code (`Done`), or it jumps to the
+`Iterate` / behind the innermost loop -/
+def Post (ctx : Scope) (C : List Instr) (stack : List Nat) (σ' : State) (fl : Flow) (s : VmState) (endPc : Nat)
+    (lc : Option LoopCtx) : Prop :=
+  if fl = .normal then Done ctx C stack σ' s endPc
+  else ∃ l, lc = some l ∧ Unw ctx C σ' s (jumpTarget fl l) l.scopes
+
+theorem drop_frames_eq {fs1 fs : List Frame} (ht : fs1.tail = fs.tail)
+    (hh : fs1.head?.map (·.loop) = fs.head?.map (·.loop)) (k : Nat) :
+    (fs1.drop k).tail = (fs.drop k).tail ∧ (fs1.drop k).head?.map (·.loop) = (fs.drop k).head?.map (·.loop) := by
+  cases k with
+  | zero => exact ⟨ht, hh⟩
+  | succ k =>
+    have e1 : fs1.drop (k + 1) = fs1.tail.drop k := by cases fs1 <;> simp
+    have e2 : fs.drop (k + 1) = fs.tail.drop k := by cases fs <;> simp
+    rw [e1, e2, ht]; exact ⟨rfl, rfl⟩
+
+/-- prefix a run that keeps operand stack, frame structure and the outer capture buffers -/
+theorem Unw.prefix {ctx C σ' s s1 tgt sc} (r : Reach ctx C s s1) (hst : s1.stack = s.stack)
+    (ht : s1.frames.tail = s.frames.tail) (hh : s1.frames.head?.map (·.loop) = s.frames.head?.map (·.loop))
+    (ho : s1.outs.tail = s.outs.tail) (h : Unw ctx C σ' s1 tgt sc) : Unw ctx C σ' s tgt sc := by
+  obtain ⟨s', r', hpc, hst', htl, hhd, hout⟩ := h
+  have := drop_frames_eq ht hh (nWith sc)
+  exact ⟨s', r.trans r', hpc, hst'.trans hst, htl.trans this.1, hhd.trans this.2, by rw [hout, ho]⟩
+
 def SimStmt (n : Nat) : Prop :=
-  ∀ st ctx stack σ σ' fl, exec n ctx stack σ st = .ok (σ', fl) → simpleStmt st = true →
-    ∀ C base a s, At C base (relStmt st base a).1 → (relStmt st base a).2.oof = false → s.pc = base →
-      Rel σ stack s → fl = .normal ∧ Done ctx C stack σ' s (base + (relStmt st base a).1.length)
+  ∀ st ctx stack σ σ' fl, exec n ctx stack σ st = .ok (σ', fl) →
+    ∀ lc, simpleStmt lc.isSome st = true →
+    ∀ C base a s, At C base (relStmt st base a lc).1.1 → (relStmt st base a lc).1.2.oof = false → s.pc = base →
+      Rel σ stack s → (∀ l, lc = some l → nCap l.scopes < s.outs.length) →
+      Post ctx C stack σ' fl s (base + (relStmt st base a lc).1.1.length) lc
 
 def SimBlock (n : Nat) : Prop :=
-  ∀ ss ctx stack σ σ' fl, execBlock n ctx stack σ ss = .ok (σ', fl) → simpleBlock ss = true →
-    ∀ C base a s, At C base (relBlock ss base a).1 → (relBlock ss base a).2.oof = false → s.pc = base →
-      Rel σ stack s → fl = .normal ∧ Done ctx C stack σ' s (base + (relBlock ss base a).1.length)
+  ∀ ss ctx stack σ σ' fl, execBlock n ctx stack σ ss = .ok (σ', fl) →
+    ∀ lc, simpleBlock lc.isSome ss = true →
+    ∀ C base a s, At C base (relBlock ss base a lc).1.1 → (relBlock ss base a lc).1.2.oof = false → s.pc = base →
+      Rel σ stack s → (∀ l, lc = some l → nCap l.scopes < s.outs.length) →
+      Post ctx C stack σ' fl s (base + (relBlock ss base a lc).1.1.length) lc
 
 def SimBinds (n : Nat) : Prop :=
   ∀ binds ctx stack heap heap' out, bindWith n ctx heap stack binds = .ok heap' → simpleBinds binds = true →
@@ -371,32 +431,52 @@ theorem sim_binds_step {n} (ihW : SimBinds n) : SimBinds (n + 1) := by
           by rw [hpc2]; simp only [List.length_append]; omega, hst2.trans hst1, hrel2,
           hout2.trans hout1, htl2.trans htl1, hhd2.trans hhd1⟩
 
+theorem outs_length_of_tail {s1 s : VmState} {σ1 σ : State} {st1 st : List Nat} (h1 : Rel σ1 st1 s1) (h : Rel σ st s)
+    (ht : s1.outs.tail = s.outs.tail) : s1.outs.length = s.outs.length := by
+  obtain ⟨r1, e1⟩ := h1.out
+  obtain ⟨r, e⟩ := h.out
+  rw [e1, e] at ht
+  simp at ht
+  rw [e1, e, ht]; rfl
+
 theorem sim_block_step {n} (ihS : SimStmt n) (ihB : SimBlock n) : SimBlock (n + 1) := by
-  intro ss ctx stack σ σ' fl hev hs C base a s hAt hoof hpc hrel
+  intro ss ctx stack σ σ' fl hev lc hs C base a s hAt hoof hpc hrel hcap
   cases ss with
   | nil =>
     simp [execBlock] at hev
     obtain ⟨rfl, rfl⟩ := hev
-    refine ⟨rfl, ?_⟩
-    simp only [relBlock, List.length_nil, Nat.add_zero]
+    simp only [Post, if_true, relBlock, List.length_nil, Nat.add_zero]
     rw [← hpc]; exact Done.refl hrel
   | cons st rest =>
-    have hs' : simpleStmt st = true ∧ simpleBlock rest = true := by simpa [simpleBlock] using hs
+    have hs' : simpleStmt lc.isSome st = true ∧ simpleBlock lc.isSome rest = true := by simpa [simpleBlock] using hs
     simp only [relBlock] at hAt hoof ⊢
     have ho1 := oof_false_of_relBlock hoof
     simp only [execBlock] at hev
     split at hev
     · simp at hev
     · rename_i σ1 h1
-      obtain ⟨_, s1, r1, hpc1, hst1, hrel1, hout1, htl1, hhd1⟩ := ihS st ctx stack σ σ1 .normal h1 hs'.1 C base a s hAt.left ho1 hpc hrel
-      obtain ⟨hfl, s2, r2, hpc2, hst2, hrel2, hout2, htl2, hhd2⟩ :=
-        ihB rest ctx stack σ1 σ' fl hev hs'.2 C (base + (relStmt st base a).1.length) (relStmt st base a).2 s1
-          hAt.right hoof hpc1 hrel1
-      exact ⟨hfl, s2, r1.trans r2, by rw [hpc2]; simp [Nat.add_assoc], hst2.trans hst1, hrel2,
-        hout2.trans hout1, htl2.trans htl1, hhd2.trans hhd1⟩
+      have p1 := ihS st ctx stack σ σ1 .normal h1 lc hs'.1 C base a s hAt.left ho1 hpc hrel hcap
+      simp only [Post, if_true] at p1
+      obtain ⟨s1, r1, hpc1, hst1, hrel1, hout1, htl1, hhd1⟩ := p1
+      have hlen1 := outs_length_of_tail hrel1 hrel hout1
+      have p2 := ihB rest ctx stack σ1 σ' fl hev lc hs'.2 C (base + (relStmt st base a lc).1.1.length)
+          (relStmt st base a lc).1.2 s1 hAt.right hoof hpc1 hrel1 (by intro l hl; rw [hlen1]; exact hcap l hl)
+      by_cases hfl : fl = .normal
+      · subst hfl
+        simp only [Post, if_true] at p2 ⊢
+        obtain ⟨s2, r2, hpc2, hst2, hrel2, hout2, htl2, hhd2⟩ := p2
+        exact ⟨s2, r1.trans r2, by rw [hpc2]; simp [Nat.add_assoc], hst2.trans hst1, hrel2,
+          hout2.trans hout1, htl2.trans htl1, hhd2.trans hhd1⟩
+      · simp only [Post, hfl, if_false] at p2 ⊢
+        obtain ⟨l, hl, hu⟩ := p2
+        exact ⟨l, hl, hu.prefix r1 hst1 htl1 hhd1 hout1⟩
     · rename_i σ1 fl1 hne h1
-      have := (ihS st ctx stack σ σ1 fl1 h1 hs'.1 C base a s hAt.left ho1 hpc hrel).1
-      exact absurd this (by intro h; exact hne h)
+      simp at hev
+      obtain ⟨rfl, rfl⟩ := hev
+      have p1 := ihS st ctx stack σ σ1 fl1 h1 lc hs'.1 C base a s hAt.left ho1 hpc hrel hcap
+      have hfl : ¬ fl1 = .normal := fun h => hne (by rw [h])
+      simp only [Post, hfl, if_false] at p1 ⊢
+      exact p1
 
 theorem Rel.appendOut {σ stack s} (h : Rel σ stack s) (t : String) (s' : VmState)
     (hf : s'.frames = s.frames) (ho : s'.outs = MJ.Vm.appendOut t s.outs) :
@@ -460,12 +540,14 @@ theorem sim_filters_step {n} (ihF : SimFilters n) : SimFilters (n + 1) := by
 def SimIters (n : Nat) : Prop :=
   ∀ ctx stack σ σ' t body xs len idx prev,
     execIters n ctx stack σ t body (xs.zip (loopInfosFrom len idx prev xs)) = .ok σ' →
-    simpleBlock body = true →
+    simpleBlock true body = true →
     ∀ C iterPc endPc a (s : VmState) (l : LoopSt) (loc : Scope) (fs : List Frame),
       C[iterPc]? = some (.iterate endPc) → At C (iterPc + 1) (relTarget t) →
-      At C (iterPc + 1 + (relTarget t).length) (relBlock body (iterPc + 1 + (relTarget t).length) a).1 →
-      (relBlock body (iterPc + 1 + (relTarget t).length) a).2.oof = false →
-      C[iterPc + 1 + (relTarget t).length + (relBlock body (iterPc + 1 + (relTarget t).length) a).1.length]? = some (.jump iterPc) →
+      At C (iterPc + 1 + (relTarget t).length)
+        (relBlock body (iterPc + 1 + (relTarget t).length) a (some ⟨iterPc, endPc, []⟩)).1.1 →
+      (relBlock body (iterPc + 1 + (relTarget t).length) a (some ⟨iterPc, endPc, []⟩)).1.2.oof = false →
+      C[iterPc + 1 + (relTarget t).length +
+        (relBlock body (iterPc + 1 + (relTarget t).length) a (some ⟨iterPc, endPc, []⟩)).1.1.length]? = some (.jump iterPc) →
       s.pc = iterPc → s.frames = { locals := loc, loop := some l } :: fs →
       l.withLoopVar = true → l.len = len → l.calls = idx → l.cur = prev → l.rest = xs →
       FramesRel σ.heap stack fs → (∃ rest, s.outs = σ.out :: rest) →
@@ -529,12 +611,33 @@ theorem sim_iters_step {n} (ihB : SimBlock n) (ihI : SimIters n) : SimIters (n +
             σ.heap ++ [setAll [("loop", loopVal info)] bs] := heapSetAll_last _ _ _
         simp only [hheap2] at hrel2
         -- the body
-        obtain ⟨hfl, s3, r3, hpc3, hst3, hrel3, hout3, htl3, hhd3⟩ :=
-          ihB body ctx (σ.heap.length :: stack) _ σ2 fl hbody hsb C (iterPc + 1 + (relTarget t).length) a s2 hAt hoof hpc2 hrel2
-        subst hfl
-        simp only at hev
+        have hcap2 : ∀ l0, (some ⟨iterPc, endPc, []⟩ : Option LoopCtx) = some l0 → nCap l0.scopes < s2.outs.length := by
+          intro l0 hl0
+          cases hl0
+          obtain ⟨r, hr⟩ := hrel2.out
+          simp [nCap, hr]
+        have pb := ihB body ctx (σ.heap.length :: stack) _ σ2 fl hbody (some ⟨iterPc, endPc, []⟩) hsb C
+          (iterPc + 1 + (relTarget t).length) a s2 hAt hoof hpc2 hrel2 hcap2
         have htake : σ2.heap.take σ.heap.length = σ.heap := take_of_frame _ _ _ _ (execBlock_frame hbody)
-        rw [htake] at hev
+        -- the state of the VM after the body: at the `Iterate` again, or behind the loop
+        have hafter : ∃ s3, Reach ctx C s2 s3 ∧ s3.pc = (if fl = .brk then endPc else iterPc) ∧ s3.stack = s2.stack ∧
+            s3.frames.tail = s2.frames.tail ∧ s3.frames.head?.map (·.loop) = s2.frames.head?.map (·.loop) ∧
+            s3.outs = σ2.out :: s2.outs.tail := by
+          by_cases hfl : fl = .normal
+          · subst hfl
+            simp only [Post, if_true] at pb
+            obtain ⟨s3, r3, hpc3, hst3, hrel3, hout3, htl3, hhd3⟩ := pb
+            obtain ⟨r3out, hr3⟩ := hrel3.out
+            refine ⟨{ s3 with pc := iterPc }, r3.trans (Reach.one' (i := .jump iterPc) _ hJ hpc3 (by simp [MJ.Vm.step])),
+              by simp, hst3, htl3, hhd3, ?_⟩
+            simp only [← hout3, hr3]; rfl
+          · simp only [Post, hfl, if_false] at pb
+            obtain ⟨l0, hl0, s3, r3, hpc3, hst3, htl3, hhd3, hout3⟩ := pb
+            cases hl0
+            refine ⟨s3, r3, ?_, hst3, by simpa [nWith] using htl3, by simpa [nWith] using hhd3, by simpa [nCap] using hout3⟩
+            rw [hpc3]
+            cases fl <;> simp [jumpTarget] at hfl ⊢
+        obtain ⟨s3, r3, hpc3, hst3, htl3, hhd3, hout3⟩ := hafter
         have hf3 : ∃ loc3, s3.frames = { locals := loc3, loop := some l' } :: fs := by
           have ht : s3.frames.tail = fs := by rw [htl3, htl2]; rfl
           have hh : s3.frames.head?.map (·.loop) = some (some l') := by rw [hhd3, hhd2]; rfl
@@ -545,18 +648,29 @@ theorem sim_iters_step {n} (ihB : SimBlock n) (ihI : SimIters n) : SimIters (n +
             simp at ht hh
             exact ⟨f3.locals, by cases f3; simp_all⟩
         obtain ⟨loc3, hf3⟩ := hf3
-        let s4 : VmState := { s3 with pc := iterPc }
-        have hreach4 : Reach ctx C s3 s4 :=
-          Reach.one' (i := .jump iterPc) _ hJ hpc3 (by simp [MJ.Vm.step, s4])
-        obtain ⟨r3out, hr3⟩ := hrel3.out
-        obtain ⟨s', r5, hpc5, hst5, htl5, hout5, houtt5, lf, locf, hlf, hit⟩ :=
-          ihI ctx stack { heap := σ.heap, out := σ2.out } σ' t body ys len (idx + 1) (some y) hev hsb
-            C iterPc endPc a s4 l' loc3 fs hIt hTg hAt hoof hJ rfl hf3 hwl (by simp [l', hlen]) (by simp [l', hcalls])
-            (by simp [l']) (by simp [l']) hFR ⟨r3out, hr3⟩ hbound hnodup ⟨c0, rs0, hstack⟩
-        refine ⟨s', hreach1.trans (r2.trans (r3.trans (hreach4.trans r5))), hpc5, ?_, htl5, hout5, ?_, ⟨lf, locf, hlf, ?_⟩⟩
-        · rw [hst5]; simp [s4, hst3, hst2]
-        · rw [houtt5]; simp only [s4]; rw [hout3, hout2]
-        · simp [hit, l']
+        by_cases hbrk : fl = .brk
+        · -- `break`: the walk ends here
+          subst hbrk
+          simp only [htake] at hev
+          simp at hev
+          subst hev
+          simp only [if_true] at hpc3
+          refine ⟨s3, hreach1.trans (r2.trans r3), hpc3, ?_, by rw [hf3]; rfl, ⟨_, hout3⟩, ?_, ⟨l', loc3, by rw [hf3]; rfl, by simp [l']⟩⟩
+          · rw [hst3, hst2]
+          · rw [hout3]; simp only [List.tail_cons]; rw [hout2]
+        · have hev' : execIters n ctx stack { heap := σ.heap, out := σ2.out } t body
+              (ys.zip (loopInfosFrom len (idx + 1) (some y) ys)) = .ok σ' := by
+            rw [← htake]
+            cases fl <;> first | exact hev | exact absurd rfl hbrk
+          simp only [hbrk, if_false] at hpc3
+          obtain ⟨s', r5, hpc5, hst5, htl5, hout5, houtt5, lf, locf, hlf, hit⟩ :=
+            ihI ctx stack { heap := σ.heap, out := σ2.out } σ' t body ys len (idx + 1) (some y) hev' hsb
+              C iterPc endPc a s3 l' loc3 fs hIt hTg hAt hoof hJ hpc3 hf3 hwl (by simp [l', hlen]) (by simp [l', hcalls])
+              (by simp [l']) (by simp [l']) hFR ⟨_, hout3⟩ hbound hnodup ⟨c0, rs0, hstack⟩
+          refine ⟨s', hreach1.trans (r2.trans (r3.trans r5)), hpc5, ?_, htl5, hout5, ?_, ⟨lf, locf, hlf, ?_⟩⟩
+          · rw [hst5, hst3, hst2]
+          · rw [houtt5, hout3]; simp only [List.tail_cons]; rw [hout2]
+          · simp [hit, l']
 
 theorem i128Min_nonpos : i128Min ≤ 0 := by decide
 
@@ -786,16 +900,64 @@ theorem sim_for_iter {n : Nat} {ctx : Scope} {stack : List Nat} {σ : State} {ta
     simp only [s5, hP, List.length_append, List.length_cons, List.length_nil]
     congr 1; omega
 
+/-- a non-normal flow through a prefix that keeps operand stack, frames and outer buffers -/
+theorem Post.prefix_nn {ctx C stack stack1 σ' fl s s1 e e' lc} (hfl : ¬ fl = Flow.normal) (r : Reach ctx C s s1)
+    (hst : s1.stack = s.stack) (ht : s1.frames.tail = s.frames.tail)
+    (hh : s1.frames.head?.map (·.loop) = s.frames.head?.map (·.loop)) (ho : s1.outs.tail = s.outs.tail)
+    (h : Post ctx C stack1 σ' fl s1 e lc) : Post ctx C stack σ' fl s e' lc := by
+  simp only [Post, hfl, if_false] at h ⊢
+  obtain ⟨l, hl, hu⟩ := h
+  exact ⟨l, hl, hu.prefix r hst ht hh ho⟩
+
+theorem nCap_le_of {lc : Option LoopCtx} {s s1 : VmState} (hcap : ∀ l, lc = some l → nCap l.scopes < s.outs.length)
+    (h : s1.outs.length = s.outs.length) : ∀ l, lc = some l → nCap l.scopes < s1.outs.length := by
+  intro l hl; rw [h]; exact hcap l hl
+
+/-- the code `break` / `continue` emit to leave the scopes opened inside the loop body -/
+theorem leave_reach (ctx : Scope) (C : List Instr) : ∀ (sc : List ScopeKind) (s : VmState),
+    At C s.pc (leaveCode sc) → nCap sc < s.outs.length →
+    Reach ctx C s { s with pc := s.pc + (leaveCode sc).length, frames := s.frames.drop (nWith sc),
+                           outs := s.outs.drop (nCap sc) }
+  | [], s, _, _ => by
+    simp only [leaveCode, nWith, nCap, List.length_nil, Nat.add_zero, List.drop_zero]
+    exact Reach.refl s
+  | .with_ :: rest, s, hAt, hc => by
+    simp only [leaveCode] at hAt
+    let s1 : VmState := { s with pc := s.pc + 1, frames := s.frames.tail }
+    have r1 : Reach ctx C s s1 := Reach.one (i := .popFrame) hAt.head (by simp [MJ.Vm.step, s1])
+    have r2 := leave_reach ctx C rest s1 (by simpa [s1] using hAt.tail) (by simpa [s1, nCap] using hc)
+    refine (r1.trans r2).cast rfl ?_
+    simp only [s1, leaveCode, nWith, nCap, List.length_cons]
+    have : s.frames.tail.drop (nWith rest) = s.frames.drop (nWith rest + 1) := by cases s.frames <;> simp
+    rw [this]
+    congr 1; omega
+  | .capture :: rest, s, hAt, hc => by
+    simp only [leaveCode] at hAt
+    simp only [nCap] at hc
+    cases ho : s.outs with
+    | nil => rw [ho] at hc; simp at hc
+    | cons o os =>
+      let s1 : VmState := { s with pc := s.pc + 1, outs := os, stack := .str o :: s.stack }
+      have r1 : Reach ctx C s s1 := Reach.one (i := .endCapture) hAt.head (by simp [MJ.Vm.step, s1, ho])
+      let s2 : VmState := { s with pc := s.pc + 2, outs := os }
+      have r2 : Reach ctx C s1 s2 :=
+        Reach.one' (i := .discardTop) _ hAt.tail.head (by simp [s1]) (by simp [MJ.Vm.step, s1, s2])
+      have r3 := leave_reach ctx C rest s2 (by simpa [s2, Nat.add_assoc] using hAt.tail.tail)
+        (by rw [ho] at hc; simp at hc; simpa [s2] using hc)
+      refine (r1.trans (r2.trans r3)).cast rfl ?_
+      simp only [s2, leaveCode, nWith, nCap, List.length_cons, List.drop_succ_cons]
+      congr 1; omega
+
 theorem sim_stmt_step {n} (ihB : SimBlock n) (ihW : SimBinds n) (ihI : SimIters n) (ihF : SimFilters n) :
     SimStmt (n + 1) := by
-  intro st ctx stack σ σ' fl hev hs C base a s hAt hoof hpc hrel
+  intro st ctx stack σ σ' fl hev lc hs C base a s hAt hoof hpc hrel hcap
   cases st with
   | text t =>
     simp [exec] at hev
     obtain ⟨rfl, rfl⟩ := hev
-    simp only [relStmt] at hAt ⊢
+    simp only [relStmt, Post, if_true] at hAt ⊢
     have hr := hrel.appendOut t { s with pc := s.pc + 1, outs := MJ.Vm.appendOut t s.outs } rfl rfl
-    exact ⟨by simp, { s with pc := s.pc + 1, outs := MJ.Vm.appendOut t s.outs },
+    exact ⟨{ s with pc := s.pc + 1, outs := MJ.Vm.appendOut t s.outs },
       Reach.one (i := .emitRaw t) (by rw [hpc]; exact hAt.head) (by simp [MJ.Vm.step]),
       by simp [hpc], rfl, hr.1, hr.2, rfl, rfl⟩
   | emit e =>
@@ -806,11 +968,11 @@ theorem sim_stmt_step {n} (ihB : SimBlock n) (ihW : SimBinds n) (ihI : SimIters 
     · rename_i v hv
       simp at hev
       obtain ⟨rfl, rfl⟩ := hev
-      simp only [relStmt] at hAt hoof ⊢
+      simp only [relStmt, Post, if_true] at hAt hoof ⊢
       have r1 := relExpr_correct hv hse hAt.left hoof hpc hrel.env
       have hr := hrel.appendOut (render v)
         { s with pc := base + (relExpr e base a).1.length + 1, outs := MJ.Vm.appendOut (render v) s.outs } rfl rfl
-      exact ⟨by simp, { s with pc := base + (relExpr e base a).1.length + 1, outs := MJ.Vm.appendOut (render v) s.outs },
+      exact ⟨{ s with pc := base + (relExpr e base a).1.length + 1, outs := MJ.Vm.appendOut (render v) s.outs },
         r1.trans (Reach.one' (i := .emit) _ hAt.right.head rfl (by simp [MJ.Vm.step])),
         by simp [Nat.add_assoc], rfl, hr.1, hr.2, rfl, rfl⟩
   | set target e =>
@@ -826,8 +988,7 @@ theorem sim_stmt_step {n} (ihB : SimBlock n) (ihW : SimBinds n) (ihI : SimIters 
       · rename_i bs hbs
         simp [topCell] at hev
         obtain ⟨rfl, rfl⟩ := hev
-        simp only [relStmt] at hAt hoof ⊢
-        refine ⟨by simp, ?_⟩
+        simp only [relStmt, Post, if_true] at hAt hoof ⊢
         have := sim_assign hv hbs hse hAt hoof hpc hrel
         simpa [Nat.add_assoc] using this
   | ifS c t f =>
@@ -837,29 +998,35 @@ theorem sim_stmt_step {n} (ihB : SimBlock n) (ihW : SimBinds n) (ihI : SimIters 
     · rename_i cv hcv
       cases f with
       | nil =>
-        have hs' : simpleExpr c = true ∧ simpleBlock t = true := by simpa [simpleStmt, simpleBlock] using hs
+        have hs' : simpleExpr c = true ∧ simpleBlock lc.isSome t = true := by simpa [simpleStmt, simpleBlock] using hs
         simp only [relStmt] at hAt hoof ⊢
         have ho1 := oof_false_of_relBlock hoof
         have r1 := relExpr_correct hcv hs'.1 hAt.left.left ho1 hpc hrel.env
         have hj := hAt.left.right.head
         by_cases ht : truthy cv = true
         · simp [ht] at hev
-          obtain ⟨hfl, s2, r2, hpc2, hst2, hrel2, hout2, htl2, hhd2⟩ :=
-            ihB t ctx stack σ σ' fl hev hs'.2 C (base + (relExpr c base a).1.length + 1) (relExpr c base a).2
+          have rj : Reach ctx C s { s with pc := base + (relExpr c base a).1.length + 1, stack := s.stack } :=
+            r1.trans (Reach.one' (i := .jumpIfFalse _) _ hj rfl (by simp [MJ.Vm.step, ht]))
+          have p2 := ihB t ctx stack σ σ' fl hev lc hs'.2 C (base + (relExpr c base a).1.length + 1) (relExpr c base a).2
               { s with pc := base + (relExpr c base a).1.length + 1, stack := s.stack }
-              (At.cast hAt.right (by simp [Nat.add_assoc])) hoof rfl (hrel.same _ rfl rfl)
-          refine ⟨hfl, s2, r1.trans (Reach.cons (i := .jumpIfFalse _) hj (by simp [MJ.Vm.step, ht] <;> rfl) r2), ?_,
-            hst2, hrel2, hout2, htl2, hhd2⟩
-          simp only [hpc2, List.length_append, List.length_cons, List.length_nil]; omega
+              (At.cast hAt.right (by simp [Nat.add_assoc])) hoof rfl (hrel.same _ rfl rfl) hcap
+          by_cases hfl : fl = .normal
+          · subst hfl
+            simp only [Post, if_true] at p2 ⊢
+            obtain ⟨s2, r2, hpc2, hst2, hrel2, hout2, htl2, hhd2⟩ := p2
+            refine ⟨s2, rj.trans r2, ?_, hst2, hrel2, hout2, htl2, hhd2⟩
+            simp only [hpc2, List.length_append, List.length_cons, List.length_nil]; omega
+          · exact Post.prefix_nn hfl rj rfl rfl rfl rfl p2
         · simp [ht] at hev
           obtain ⟨rfl, rfl⟩ := execBlock_nil hev
-          refine ⟨rfl, { s with pc := base + (relExpr c base a).1.length + 1 +
-              (relBlock t (base + (relExpr c base a).1.length + 1) (relExpr c base a).2).1.length },
+          simp only [Post, if_true]
+          refine ⟨{ s with pc := base + (relExpr c base a).1.length + 1 +
+              (relBlock t (base + (relExpr c base a).1.length + 1) (relExpr c base a).2 lc).1.1.length },
             r1.trans (Reach.one (i := .jumpIfFalse _) hj (by simp [MJ.Vm.step, ht])), ?_, rfl,
             hrel.same _ rfl rfl, rfl, rfl, rfl⟩
           simp only [List.length_append, List.length_cons, List.length_nil]; omega
       | cons f0 fs =>
-        have hs' : (simpleExpr c = true ∧ simpleBlock t = true) ∧ simpleBlock (f0 :: fs) = true := by
+        have hs' : (simpleExpr c = true ∧ simpleBlock lc.isSome t = true) ∧ simpleBlock lc.isSome (f0 :: fs) = true := by
           simpa [simpleStmt] using hs
         simp only [relStmt] at hAt hoof ⊢
         have ho2 := oof_false_of_relBlock hoof
@@ -868,34 +1035,46 @@ theorem sim_stmt_step {n} (ihB : SimBlock n) (ihW : SimBinds n) (ihI : SimIters 
         have hj := hAt.left.left.left.right.head
         by_cases ht : truthy cv = true
         · simp [ht] at hev
-          obtain ⟨hfl, s2, r2, hpc2, hst2, hrel2, hout2, htl2, hhd2⟩ :=
-            ihB t ctx stack σ σ' fl hev hs'.1.2 C (base + (relExpr c base a).1.length + 1) (relExpr c base a).2
+          have rj : Reach ctx C s { s with pc := base + (relExpr c base a).1.length + 1, stack := s.stack } :=
+            r1.trans (Reach.one' (i := .jumpIfFalse _) _ hj rfl (by simp [MJ.Vm.step, ht]))
+          have p2 := ihB t ctx stack σ σ' fl hev lc hs'.1.2 C (base + (relExpr c base a).1.length + 1) (relExpr c base a).2
               { s with pc := base + (relExpr c base a).1.length + 1, stack := s.stack }
-              (At.cast hAt.left.left.right (by simp [Nat.add_assoc])) ho2 rfl (hrel.same _ rfl rfl)
-          have hj2 := hAt.left.right.head
-          refine ⟨hfl, { s2 with pc := base + (relExpr c base a).1.length + 1 +
-                (relBlock t (base + (relExpr c base a).1.length + 1) (relExpr c base a).2).1.length + 1 +
-                (relBlock (f0 :: fs) (base + (relExpr c base a).1.length + 1 +
-                  (relBlock t (base + (relExpr c base a).1.length + 1) (relExpr c base a).2).1.length + 1)
-                  (relBlock t (base + (relExpr c base a).1.length + 1) (relExpr c base a).2).2).1.length },
-            r1.trans (Reach.cons (i := .jumpIfFalse _) hj (by simp [MJ.Vm.step, ht] <;> rfl)
-              (r2.trans (Reach.one' (i := .jump _) _ hj2
-                (by simp only [hpc2, List.length_append, List.length_cons, List.length_nil]; omega)
-                (by simp [MJ.Vm.step])))),
-            ?_, hst2, hrel2.same _ rfl rfl, hout2, htl2, hhd2⟩
-          simp only [List.length_append, List.length_cons, List.length_nil]; omega
+              (At.cast hAt.left.left.right (by simp [Nat.add_assoc])) ho2 rfl (hrel.same _ rfl rfl) hcap
+          by_cases hfl : fl = .normal
+          · subst hfl
+            simp only [Post, if_true] at p2 ⊢
+            obtain ⟨s2, r2, hpc2, hst2, hrel2, hout2, htl2, hhd2⟩ := p2
+            have hj2 := hAt.left.right.head
+            refine ⟨{ s2 with pc := base + (relExpr c base a).1.length + 1 +
+                  (relBlock t (base + (relExpr c base a).1.length + 1) (relExpr c base a).2 lc).1.1.length + 1 +
+                  (relBlock (f0 :: fs) (base + (relExpr c base a).1.length + 1 +
+                    (relBlock t (base + (relExpr c base a).1.length + 1) (relExpr c base a).2 lc).1.1.length + 1)
+                    (relBlock t (base + (relExpr c base a).1.length + 1) (relExpr c base a).2 lc).1.2 lc).1.1.length },
+              rj.trans (r2.trans (Reach.one' (i := .jump _) _ hj2
+                  (by simp only [hpc2, List.length_append, List.length_cons, List.length_nil]; omega)
+                  (by simp [MJ.Vm.step]))),
+              ?_, hst2, hrel2.same _ rfl rfl, hout2, htl2, hhd2⟩
+            simp only [List.length_append, List.length_cons, List.length_nil]; omega
+          · exact Post.prefix_nn hfl rj rfl rfl rfl rfl p2
         · simp [ht] at hev
-          obtain ⟨hfl, s2, r2, hpc2, hst2, hrel2, hout2, htl2, hhd2⟩ :=
-            ihB (f0 :: fs) ctx stack σ σ' fl hev hs'.2 C
-              (base + (relExpr c base a).1.length + 1 + (relBlock t (base + (relExpr c base a).1.length + 1) (relExpr c base a).2).1.length + 1)
-              (relBlock t (base + (relExpr c base a).1.length + 1) (relExpr c base a).2).2
-              { s with pc := base + (relExpr c base a).1.length + 1 + (relBlock t (base + (relExpr c base a).1.length + 1) (relExpr c base a).2).1.length + 1, stack := s.stack }
-              (At.cast hAt.right (by simp [Nat.add_assoc]; try omega)) hoof rfl (hrel.same _ rfl rfl)
-          refine ⟨hfl, s2, r1.trans (Reach.cons (i := .jumpIfFalse _) hj (by simp [MJ.Vm.step, ht] <;> rfl) r2), ?_,
-            hst2, hrel2, hout2, htl2, hhd2⟩
-          simp only [hpc2, List.length_append, List.length_cons, List.length_nil]; omega
+          have rj : Reach ctx C s { s with pc := base + (relExpr c base a).1.length + 1 +
+              (relBlock t (base + (relExpr c base a).1.length + 1) (relExpr c base a).2 lc).1.1.length + 1, stack := s.stack } :=
+            r1.trans (Reach.one' (i := .jumpIfFalse _) _ hj rfl (by simp [MJ.Vm.step, ht]))
+          have p2 := ihB (f0 :: fs) ctx stack σ σ' fl hev lc hs'.2 C
+              (base + (relExpr c base a).1.length + 1 + (relBlock t (base + (relExpr c base a).1.length + 1) (relExpr c base a).2 lc).1.1.length + 1)
+              (relBlock t (base + (relExpr c base a).1.length + 1) (relExpr c base a).2 lc).1.2
+              { s with pc := base + (relExpr c base a).1.length + 1 + (relBlock t (base + (relExpr c base a).1.length + 1) (relExpr c base a).2 lc).1.1.length + 1, stack := s.stack }
+              (At.cast hAt.right (by simp [Nat.add_assoc]; try omega)) hoof rfl (hrel.same _ rfl rfl) hcap
+          by_cases hfl : fl = .normal
+          · subst hfl
+            simp only [Post, if_true] at p2 ⊢
+            obtain ⟨s2, r2, hpc2, hst2, hrel2, hout2, htl2, hhd2⟩ := p2
+            refine ⟨s2, rj.trans r2, ?_, hst2, hrel2, hout2, htl2, hhd2⟩
+            simp only [hpc2, List.length_append, List.length_cons, List.length_nil]; omega
+          · exact Post.prefix_nn hfl rj rfl rfl rfl rfl p2
   | withS binds body =>
-    have hs' : simpleBinds binds = true ∧ simpleBlock body = true := by simpa [simpleStmt] using hs
+    have hs' : simpleBinds binds = true ∧ simpleBlock (pushScope .with_ lc).isSome body = true := by
+      simpa [simpleStmt] using hs
     simp only [exec, bind, Except.bind] at hev
     split at hev
     · simp at hev
@@ -918,41 +1097,104 @@ theorem sim_stmt_step {n} (ihB : SimBlock n) (ihW : SimBinds n) (ihI : SimIters 
         obtain ⟨s2, r2, hpc2, hst2, hrel2, hout2, htl2, hhd2⟩ :=
           ihW binds ctx (σ.heap.length :: stack) _ heap1 σ.out hw hs'.1 C (base + 1) a s1
             (At.cast hAt.left.left.right (by simp only [List.length_cons, List.length_nil])) ho1 rfl hrel1
+        have hlen2 : s2.outs.length = s.outs.length := by
+          have := outs_length_of_tail hrel2 hrel1 hout2; simpa [s1] using this
         -- the body
-        obtain ⟨hfl, s3, r3, hpc3, hst3, hrel3, hout3, htl3, hhd3⟩ :=
-          ihB body ctx (σ.heap.length :: stack) _ σ2 fl2 hr hs'.2 C (base + 1 + (relBinds binds (base + 1) a).1.length)
+        have p3 := ihB body ctx (σ.heap.length :: stack) _ σ2 fl2 hr (pushScope .with_ lc) hs'.2 C
+            (base + 1 + (relBinds binds (base + 1) a).1.length)
             (relBinds binds (base + 1) a).2 s2
             (At.cast hAt.left.right (by simp only [List.length_append, List.length_cons, List.length_nil]; omega)) hoof hpc2 hrel2
-        -- PopFrame: the scope is dropped on both sides
-        have htake : σ2.heap.take σ.heap.length = σ.heap :=
-          take_of_frame σ.heap [] stack σ2.heap ((bindWith_frame _ _ _ _ _ _ hw).trans (execBlock_frame hr))
-        have hfr3 : s3.frames.tail = s.frames := by rw [htl3, htl2]; rfl
-        obtain ⟨r3out, hr3⟩ := hrel3.out
-        let s4 : VmState := { s3 with pc := s3.pc + 1, frames := s3.frames.tail }
-        have hreach4 : Reach ctx C s3 s4 :=
-          Reach.one' (i := .popFrame) _ hAt.right.head
-            (by simp only [hpc3, List.length_append, List.length_cons, List.length_nil]; omega)
-            (by simp [MJ.Vm.step, s4])
-        refine ⟨hfl, s4, hreach1.trans (r2.trans (r3.trans hreach4)), ?_, ?_, ?_, ?_, ?_, ?_⟩
-        · simp only [s4, hpc3, List.length_append, List.length_cons, List.length_nil]; omega
-        · simp [s4, hst3, hst2, s1]
-        · refine ⟨?_, ⟨r3out, by simp [s4, hr3]⟩, ?_, hrel.nodup, hrel.nonempty⟩
-          · simp only [s4, hfr3, htake]; exact hrel.frames
-          · simp only [htake]; exact hrel.bound
-        · simp [s4, hout3, hout2, s1]
-        · simp [s4, hfr3]
-        · simp [s4, hfr3]
+            (by intro l' hl'
+                cases lc with
+                | none => simp [pushScope] at hl'
+                | some l =>
+                  simp only [pushScope, Option.some.injEq] at hl'
+                  subst hl'
+                  rw [hlen2]; simpa [nCap] using hcap l rfl)
+        by_cases hfl : fl2 = .normal
+        · subst hfl
+          simp only [Post, if_true] at p3 ⊢
+          obtain ⟨s3, r3, hpc3, hst3, hrel3, hout3, htl3, hhd3⟩ := p3
+          -- PopFrame: the scope is dropped on both sides
+          have htake : σ2.heap.take σ.heap.length = σ.heap :=
+            take_of_frame σ.heap [] stack σ2.heap ((bindWith_frame _ _ _ _ _ _ hw).trans (execBlock_frame hr))
+          have hfr3 : s3.frames.tail = s.frames := by rw [htl3, htl2]; rfl
+          obtain ⟨r3out, hr3⟩ := hrel3.out
+          let s4 : VmState := { s3 with pc := s3.pc + 1, frames := s3.frames.tail }
+          have hreach4 : Reach ctx C s3 s4 :=
+            Reach.one' (i := .popFrame) _ hAt.right.head
+              (by simp only [hpc3, List.length_append, List.length_cons, List.length_nil]; omega)
+              (by simp [MJ.Vm.step, s4])
+          refine ⟨s4, hreach1.trans (r2.trans (r3.trans hreach4)), ?_, ?_, ?_, ?_, ?_, ?_⟩
+          · simp only [s4, hpc3, List.length_append, List.length_cons, List.length_nil]; omega
+          · simp [s4, hst3, hst2, s1]
+          · refine ⟨?_, ⟨r3out, by simp [s4, hr3]⟩, ?_, hrel.nodup, hrel.nonempty⟩
+            · simp only [s4, hfr3, htake]; exact hrel.frames
+            · simp only [htake]; exact hrel.bound
+          · simp [s4, hout3, hout2, s1]
+          · simp [s4, hfr3]
+          · simp [s4, hfr3]
+        · -- `break` / `continue` inside the block: the frame was popped on the way out
+          simp only [Post, hfl, if_false] at p3 ⊢
+          obtain ⟨l', hl', s3, r3, hpc3, hst3, htl3, hhd3, hout3⟩ := p3
+          cases lc with
+          | none => simp [pushScope] at hl'
+          | some l =>
+            simp only [pushScope, Option.some.injEq] at hl'
+            subst hl'
+            have hdrop : s2.frames.drop (nWith l.scopes + 1) = s.frames.drop (nWith l.scopes) := by
+              have e1 : s2.frames.drop (nWith l.scopes + 1) = s2.frames.tail.drop (nWith l.scopes) := by
+                cases s2.frames <;> simp
+              rw [e1, htl2]; rfl
+            refine ⟨l, rfl, s3, hreach1.trans (r2.trans r3), ?_, ?_, ?_, ?_, ?_⟩
+            · rw [hpc3]; cases fl2 <;> rfl
+            · rw [hst3, hst2]
+            · simpa [nWith, hdrop] using htl3
+            · simpa [nWith, hdrop] using hhd3
+            · rw [hout3, hout2]; rfl
+  | breakS =>
+    simp [exec] at hev
+    obtain ⟨rfl, rfl⟩ := hev
+    cases lc with
+    | none => simp [simpleStmt] at hs
+    | some l =>
+      simp only [relStmt] at hAt ⊢
+      have r1 := leave_reach ctx C l.scopes s (by rw [hpc]; exact hAt.left) (hcap l rfl)
+      have hj := hAt.right.head
+      simp only [Post, if_false, reduceCtorEq]
+      refine ⟨l, rfl, { s with pc := l.exit, frames := s.frames.drop (nWith l.scopes), outs := s.outs.drop (nCap l.scopes) },
+        r1.trans (Reach.one' (i := .jump l.exit) _ hj (by simp [hpc]) (by simp [MJ.Vm.step])), rfl, rfl, rfl, rfl, ?_⟩
+      obtain ⟨rest, hr⟩ := hrel.out
+      simp [hr]
+  | continueS =>
+    simp [exec] at hev
+    obtain ⟨rfl, rfl⟩ := hev
+    cases lc with
+    | none => simp [simpleStmt] at hs
+    | some l =>
+      simp only [relStmt] at hAt ⊢
+      have r1 := leave_reach ctx C l.scopes s (by rw [hpc]; exact hAt.left) (hcap l rfl)
+      have hj := hAt.right.head
+      simp only [Post, if_false, reduceCtorEq]
+      refine ⟨l, rfl, { s with pc := l.iter, frames := s.frames.drop (nWith l.scopes), outs := s.outs.drop (nCap l.scopes) },
+        r1.trans (Reach.one' (i := .jump l.iter) _ hj (by simp [hpc]) (by simp [MJ.Vm.step])), rfl, rfl, rfl, rfl, ?_⟩
+      obtain ⟨rest, hr⟩ := hrel.out
+      simp [hr]
+  | macroS _ _ _ _ _ => simp [simpleStmt] at hs
+  | callBlock _ _ _ _ _ _ => simp [simpleStmt] at hs
   | forS target iter flt body els =>
-    have hs' : (simpleExpr iter = true ∧ simpleBlock body = true) ∧ simpleBlock els = true := by
+    have hs' : (simpleExpr iter = true ∧ simpleBlock true body = true) ∧ simpleBlock lc.isSome els = true := by
       cases flt with
       | none => simpa [simpleStmt] using hs
       | some c =>
-        have : ((simpleExpr iter = true ∧ simpleExpr c = true) ∧ simpleBlock body = true) ∧ simpleBlock els = true := by
+        have : ((simpleExpr iter = true ∧ simpleExpr c = true) ∧ simpleBlock true body = true) ∧
+            simpleBlock lc.isSome els = true := by
           simpa [simpleStmt] using hs
         exact ⟨⟨this.1.1.1, this.1.2⟩, this.2⟩
     have hsc : ∀ c, flt = some c → simpleExpr c = true := by
       intro c hc; subst hc
-      have : ((simpleExpr iter = true ∧ simpleExpr c = true) ∧ simpleBlock body = true) ∧ simpleBlock els = true := by
+      have : ((simpleExpr iter = true ∧ simpleExpr c = true) ∧ simpleBlock true body = true) ∧
+          simpleBlock lc.isSome els = true := by
         simpa [simpleStmt] using hs
       exact this.1.1.2
     simp only [exec, bind, Except.bind] at hev
@@ -1006,35 +1248,36 @@ theorem sim_stmt_step {n} (ihB : SimBlock n) (ihW : SimBinds n) (ihI : SimIters 
               · simp at hev
         clear hev
         obtain ⟨xs, sized, hflt, σi, hit, hcase⟩ := hphase
+        -- the address behind the loop and the body as it is compiled
+        obtain ⟨E, hEdef⟩ : ∃ E, E = forExit target iter flt body base a := ⟨_, rfl⟩
+        obtain ⟨RB, hRB⟩ : ∃ RB, RB = forBody target iter flt body base a := ⟨_, rfl⟩
+        have hend : E = base + (relForIter target iter flt base a).1.length + 2 + (relTarget target).length + RB.1.1.length + 1 := by
+          rw [hEdef, hRB]; exact forExit_eq _ _ _ _ _ _
+        have hRBeq : RB = relBlock body (base + (relForIter target iter flt base a).1.length + 2 + (relTarget target).length) (relForIter target iter flt base a).2
+            (some ⟨base + (relForIter target iter flt base a).1.length + 1, E, []⟩) := by
+          rw [hRB, hEdef]; rfl
         -- common prefix of the code: iterable, PushLoop, Iterate, target, body, Jump
-        have hcode : ∃ (rest : List Instr) (endPc : Nat) (a2 : Aux),
-            (relStmt (.forS target iter flt body els) base a).1 =
-              (relForIter target iter flt base a).1 ++ [.pushLoop 1, .iterate endPc] ++ relTarget target ++
-                (relBlock body (base + (relForIter target iter flt base a).1.length + 2 + (relTarget target).length) (relForIter target iter flt base a).2).1 ++
-                [.jump (base + (relForIter target iter flt base a).1.length + 1)] ++ rest ∧
-            endPc = base + (relForIter target iter flt base a).1.length + 2 + (relTarget target).length +
-              (relBlock body (base + (relForIter target iter flt base a).1.length + 2 + (relTarget target).length) (relForIter target iter flt base a).2).1.length + 1 ∧
-            (relBlock body (base + (relForIter target iter flt base a).1.length + 2 + (relTarget target).length) (relForIter target iter flt base a).2).2.oof = false := by
+        have hcode : ∃ (rest : List Instr),
+            (relStmt (.forS target iter flt body els) base a lc).1.1 =
+              (relForIter target iter flt base a).1 ++ [.pushLoop 1, .iterate E] ++ relTarget target ++ RB.1.1 ++
+                [.jump (base + (relForIter target iter flt base a).1.length + 1)] ++ rest ∧ RB.1.2.oof = false := by
           cases els with
-          | nil => exact ⟨[.popLoopFrame], _, (relForIter target iter flt base a).2, by simp [relStmt], rfl, by simpa [relStmt] using hoof⟩
+          | nil =>
+            refine ⟨[.popLoopFrame], ?_, ?_⟩
+            · rw [relStmt_for_nil, ← hEdef, ← hRB]; simp
+            · have := hoof; rw [relStmt_for_nil, ← hRB] at this; exact this
           | cons e0 es =>
             refine ⟨[.pushDidNotIterate, .popLoopFrame,
-                .jumpIfFalse (base + (relForIter target iter flt base a).1.length + 2 + (relTarget target).length +
-                  (relBlock body (base + (relForIter target iter flt base a).1.length + 2 + (relTarget target).length) (relForIter target iter flt base a).2).1.length + 4 +
-                  (relBlock (e0 :: es) (base + (relForIter target iter flt base a).1.length + 2 + (relTarget target).length +
-                    (relBlock body (base + (relForIter target iter flt base a).1.length + 2 + (relTarget target).length) (relForIter target iter flt base a).2).1.length + 4)
-                    (relBlock body (base + (relForIter target iter flt base a).1.length + 2 + (relTarget target).length) (relForIter target iter flt base a).2).2).1.length)] ++
-                (relBlock (e0 :: es) (base + (relForIter target iter flt base a).1.length + 2 + (relTarget target).length +
-                    (relBlock body (base + (relForIter target iter flt base a).1.length + 2 + (relTarget target).length) (relForIter target iter flt base a).2).1.length + 4)
-                    (relBlock body (base + (relForIter target iter flt base a).1.length + 2 + (relTarget target).length) (relForIter target iter flt base a).2).2).1,
-              _, (relForIter target iter flt base a).2, by simp only [relStmt]; simp, rfl, ?_⟩
-            have : (relStmt (.forS target iter flt body (e0 :: es)) base a).2.oof = false := hoof
-            simp only [relStmt] at this
-            exact oof_false_of_relBlock this
-        obtain ⟨rest, endPc, _, hcodeEq, hend, hoofb⟩ := hcode
+                .jumpIfFalse (E + 3 + (relBlock (e0 :: es) (E + 3) RB.1.2 lc).1.1.length)] ++
+                (relBlock (e0 :: es) (E + 3) RB.1.2 lc).1.1, ?_, ?_⟩
+            · rw [relStmt_for_cons, ← hEdef, ← hRB]; simp
+            · have := hoof; rw [relStmt_for_cons, ← hEdef, ← hRB] at this
+              exact oof_false_of_relBlock this
+        obtain ⟨rest, hcodeEq, hoofb⟩ := hcode
         have hAt' := hAt
         rw [hcodeEq] at hAt'
-        have ho1 := oof_false_of_relBlock hoofb
+        have ho1 : (relForIter target iter flt base a).2.oof = false := by
+          rw [hRBeq] at hoofb; exact oof_false_of_relBlock hoofb
         obtain ⟨w, r1, hwit, hwsz⟩ := sim_for_iter hv hxs hflt hs'.1.1 hsc hAt'.left.left.left.left.left ho1 hpc hrel
         let l0 : LoopSt := { withLoopVar := true, len := if sized then some xs.length else none,
                              calls := 0, iterated := false, prev := none, cur := none, rest := xs }
@@ -1048,12 +1291,12 @@ theorem sim_stmt_step {n} (ihB : SimBlock n) (ihW : SimBinds n) (ihI : SimIters 
         obtain ⟨s5, r5, hpc5, hst5, htl5, hout5, houtt5, lf, locf, hlf, hitd⟩ :=
           ihI ctx stack σ σi target body xs (if sized then some xs.length else none) 0 none
             (by simpa [loopInfos] using hit) hs'.1.2 C
-            (base + (relForIter target iter flt base a).1.length + 1) endPc (relForIter target iter flt base a).2 s2 l0 [] s.frames
+            (base + (relForIter target iter flt base a).1.length + 1) E (relForIter target iter flt base a).2 s2 l0 [] s.frames
             (by have := hAt'.left.left.left.left.right.tail.head; simpa [Nat.add_assoc] using this)
             (by rw [e1]; exact At.cast hAt'.left.left.left.right (by simp [Nat.add_assoc]))
-            (by rw [e1]; exact At.cast hAt'.left.left.right (by simp only [List.length_append, List.length_cons, List.length_nil]; omega))
-            (by rw [e1]; exact hoofb)
-            (by rw [e1]; have := hAt'.left.right.head
+            (by rw [e1, ← hRBeq]; exact At.cast hAt'.left.left.right (by simp only [List.length_append, List.length_cons, List.length_nil]; omega))
+            (by rw [e1, ← hRBeq]; exact hoofb)
+            (by rw [e1, ← hRBeq]; have := hAt'.left.right.head
                 refine Eq.trans (congrArg (fun k => C[k]?) ?_) this
                 simp only [List.length_append, List.length_cons, List.length_nil]; omega)
             rfl rfl rfl rfl rfl rfl rfl hrel.frames hrel.out hrel.bound hrel.nodup ⟨c0, rs0, hstack⟩
@@ -1075,16 +1318,17 @@ theorem sim_stmt_step {n} (ihB : SimBlock n) (ihW : SimBinds n) (ihI : SimIters 
             · exact ⟨h1, h2⟩
           obtain ⟨rfl, rfl⟩ := hσ
           have hrest : rest = [.popLoopFrame] := by
-            have := hcodeEq; simp only [relStmt] at this
+            have := hcodeEq; rw [relStmt_for_nil, ← hEdef, ← hRB] at this
             simp at this
-            exact this.2.symm
+            exact this.symm
           subst hrest
           let s6 : VmState := { s5 with pc := s5.pc + 1, frames := s5.frames.tail }
           have hreach6 : Reach ctx C s5 s6 :=
             Reach.one' (i := .popLoopFrame) _ hAt'.right.head
               (by simp only [hpc5, hend, List.length_append, List.length_cons, List.length_nil]; omega)
               (by simp [MJ.Vm.step, s6])
-          refine ⟨by simp, s6, r1.trans (hreach2.trans (r5.trans hreach6)), ?_, ?_, ?_, ?_, ?_, ?_⟩
+          simp only [Post, if_true]
+          refine ⟨s6, r1.trans (hreach2.trans (r5.trans hreach6)), ?_, ?_, ?_, ?_, ?_, ?_⟩
           · rw [hcodeEq]; simp only [s6, hpc5, hend, List.length_append, List.length_cons, List.length_nil]; omega
           · simp [s6, hst5, s2]
           · refine ⟨?_, by simpa [s6] using hout5, ?_, hrel.nodup, hrel.nonempty⟩
@@ -1095,39 +1339,31 @@ theorem sim_stmt_step {n} (ihB : SimBlock n) (ihW : SimBinds n) (ihI : SimIters 
           · simp [s6, htl5]
         | cons e0 es =>
           -- the shape of the code behind the loop
-          have hrestEq := hcodeEq
-          simp only [relStmt] at hrestEq
-          simp at hrestEq
-          obtain ⟨_, hrest⟩ := hrestEq
-          have hpre : base + ((relForIter target iter flt base a).1 ++ [Instr.pushLoop 1, Instr.iterate endPc] ++ relTarget target ++
-              (relBlock body (base + (relForIter target iter flt base a).1.length + 2 + (relTarget target).length) (relForIter target iter flt base a).2).1 ++
-              [Instr.jump (base + (relForIter target iter flt base a).1.length + 1)]).length = endPc := by
+          have hrest : rest = [.pushDidNotIterate, .popLoopFrame,
+                .jumpIfFalse (E + 3 + (relBlock (e0 :: es) (E + 3) RB.1.2 lc).1.1.length)] ++
+                (relBlock (e0 :: es) (E + 3) RB.1.2 lc).1.1 := by
+            have := hcodeEq; rw [relStmt_for_cons, ← hEdef, ← hRB] at this
+            simp at this
+            exact this.symm
+          have hpre : base + ((relForIter target iter flt base a).1 ++ [Instr.pushLoop 1, Instr.iterate E] ++ relTarget target ++
+              RB.1.1 ++ [Instr.jump (base + (relForIter target iter flt base a).1.length + 1)]).length = E := by
             simp only [hend, List.length_append, List.length_cons, List.length_nil]; omega
-          have hAtR : At C endPc (Instr.pushDidNotIterate :: Instr.popLoopFrame ::
-              Instr.jumpIfFalse (endPc + 3 + (relBlock (e0 :: es) (endPc + 3) (relBlock body (base + (relForIter target iter flt base a).1.length + 2 + (relTarget target).length) (relForIter target iter flt base a).2).2).1.length) ::
-              (relBlock (e0 :: es) (endPc + 3) (relBlock body (base + (relForIter target iter flt base a).1.length + 2 + (relTarget target).length) (relForIter target iter flt base a).2).2).1) := by
+          have hAtR : At C E (Instr.pushDidNotIterate :: Instr.popLoopFrame ::
+              Instr.jumpIfFalse (E + 3 + (relBlock (e0 :: es) (E + 3) RB.1.2 lc).1.1.length) ::
+              (relBlock (e0 :: es) (E + 3) RB.1.2 lc).1.1) := by
             have h := At.cast hAt'.right hpre
-            rw [← hrest] at h
-            have e4 : base + (relForIter target iter flt base a).1.length + 2 + (relTarget target).length +
-                (relBlock body (base + (relForIter target iter flt base a).1.length + 2 + (relTarget target).length) (relForIter target iter flt base a).2).1.length + 4 = endPc + 3 := by
-              rw [hend]
-            rw [e4] at h
+            rw [hrest] at h
             exact h
-          have hrestLen : rest.length = 3 + (relBlock (e0 :: es) (endPc + 3) (relBlock body (base + (relForIter target iter flt base a).1.length + 2 + (relTarget target).length) (relForIter target iter flt base a).2).2).1.length := by
-            have e4 : base + (relForIter target iter flt base a).1.length + 2 + (relTarget target).length +
-                (relBlock body (base + (relForIter target iter flt base a).1.length + 2 + (relTarget target).length) (relForIter target iter flt base a).2).1.length + 4 = endPc + 3 := by
-              rw [hend]
-            rw [← hrest, e4]; simp; omega
-          have hoofE : (relBlock (e0 :: es) (endPc + 3) (relBlock body (base + (relForIter target iter flt base a).1.length + 2 + (relTarget target).length) (relForIter target iter flt base a).2).2).2.oof = false := by
-            have : (relStmt (.forS target iter flt body (e0 :: es)) base a).2.oof = false := hoof
-            simp only [relStmt] at this
-            rw [hend]; simpa [Nat.add_assoc] using this
+          have hrestLen : rest.length = 3 + (relBlock (e0 :: es) (E + 3) RB.1.2 lc).1.1.length := by
+            rw [hrest]; simp; omega
+          have hoofE : (relBlock (e0 :: es) (E + 3) RB.1.2 lc).1.2.oof = false := by
+            have := hoof; rw [relStmt_for_cons, ← hEdef, ← hRB] at this; exact this
           -- PushDidNotIterate, PopLoopFrame
-          let s6 : VmState := { s5 with pc := endPc + 1, stack := .bool (!lf.iterated) :: s5.stack }
+          let s6 : VmState := { s5 with pc := E + 1, stack := .bool (!lf.iterated) :: s5.stack }
           have hreach6 : Reach ctx C s5 s6 :=
             Reach.one' (i := .pushDidNotIterate) _ hAtR.head hpc5
               (by simp [MJ.Vm.step, hfr5, currentLoop, s6, hpc5])
-          let s7 : VmState := { s6 with pc := endPc + 2, frames := s.frames }
+          let s7 : VmState := { s6 with pc := E + 2, frames := s.frames }
           have hreach7 : Reach ctx C s6 s7 :=
             Reach.one' (i := .popLoopFrame) _ hAtR.tail.head (by simp [s6])
               (by simp [MJ.Vm.step, s7, s6, hfr5])
@@ -1142,31 +1378,41 @@ theorem sim_stmt_step {n} (ihB : SimBlock n) (ihW : SimBinds n) (ihI : SimIters 
               | succ m => simp [execIters, loopInfos, loopInfosFrom] at hit; exact hit.symm
             subst hσi
             have hitf : lf.iterated = false := by simpa [l0] using hitd
-            let s8 : VmState := { s7 with pc := endPc + 3, stack := s.stack }
+            let s8 : VmState := { s7 with pc := E + 3, stack := s.stack }
             have hreach8 : Reach ctx C s7 s8 :=
               Reach.one' (i := .jumpIfFalse _) _ hj (by simp [s7]) (by simp only [MJ.Vm.step, hst7]; simp [hitf, truthy, s8, s7])
             have hrel8 : Rel σi stack s8 :=
               ⟨by simpa [s8, s7] using hrel.frames, by simpa [s8, s7, s6] using hout5, hrel.bound, hrel.nodup, hrel.nonempty⟩
-            obtain ⟨hfl, s9, r9, hpc9, hst9, hrel9, hout9, htl9, hhd9⟩ :=
-              ihB (e0 :: es) ctx stack σi σ' fl hb hs'.2 C (endPc + 3) _ s8
-                (At.cast hAtR.tail.tail.tail (by omega)) hoofE rfl hrel8
-            refine ⟨hfl, s9, r1.trans (hreach2.trans (r5.trans (hreach6.trans (hreach7.trans (hreach8.trans r9))))), ?_, ?_, hrel9, ?_, ?_, ?_⟩
-            · rw [hpc9, hcodeEq, List.length_append, hrestLen]; omega
-            · simp [hst9, s8]
-            · rw [hout9]; simp [s8, s7, s6, houtt5, s2]
-            · rw [htl9]
-            · rw [hhd9]
+            have hlen8 : s8.outs.length = s.outs.length := by
+              have : s8.outs.tail = s.outs.tail := by simp [s8, s7, s6, houtt5, s2]
+              exact outs_length_of_tail hrel8 hrel this
+            have rpre : Reach ctx C s s8 := r1.trans (hreach2.trans (r5.trans (hreach6.trans (hreach7.trans hreach8))))
+            have p9 := ihB (e0 :: es) ctx stack σi σ' fl hb lc hs'.2 C (E + 3) _ s8
+                (At.cast hAtR.tail.tail.tail (by omega)) hoofE rfl hrel8 (nCap_le_of hcap hlen8)
+            by_cases hfl : fl = .normal
+            · subst hfl
+              simp only [Post, if_true] at p9 ⊢
+              obtain ⟨s9, r9, hpc9, hst9, hrel9, hout9, htl9, hhd9⟩ := p9
+              refine ⟨s9, rpre.trans r9, ?_, ?_, hrel9, ?_, ?_, ?_⟩
+              · rw [hpc9, hcodeEq, List.length_append, hrestLen]; omega
+              · simp [hst9, s8]
+              · rw [hout9]; simp [s8, s7, s6, houtt5, s2]
+              · rw [htl9]
+              · rw [hhd9]
+            · exact Post.prefix_nn hfl rpre (by simp [s8]) (by simp [s8, s7]) (by simp [s8, s7])
+                (by simp [s8, s7, s6, houtt5, s2]) p9
           · -- at least one iteration: jump over the else branch
             subst h1; subst h2
             have hitt : lf.iterated = true := by
               cases xs with
               | nil => exact absurd rfl hx
               | cons y ys => simpa [l0] using hitd
-            let s8 : VmState := { s7 with pc := endPc + 3 + (relBlock (e0 :: es) (endPc + 3) (relBlock body (base + (relForIter target iter flt base a).1.length + 2 + (relTarget target).length) (relForIter target iter flt base a).2).2).1.length, stack := s.stack }
+            let s8 : VmState := { s7 with pc := E + 3 + (relBlock (e0 :: es) (E + 3) RB.1.2 lc).1.1.length, stack := s.stack }
             have hreach8 : Reach ctx C s7 s8 :=
               Reach.one' (i := .jumpIfFalse _) _ hj (by simp [s7])
                 (by simp only [MJ.Vm.step, hst7]; simp [hitt, truthy, s8, s7])
-            refine ⟨by simp, s8, r1.trans (hreach2.trans (r5.trans (hreach6.trans (hreach7.trans hreach8)))), ?_, ?_, ?_, ?_, ?_, ?_⟩
+            simp only [Post, if_true]
+            refine ⟨s8, r1.trans (hreach2.trans (r5.trans (hreach6.trans (hreach7.trans hreach8)))), ?_, ?_, ?_, ?_, ?_, ?_⟩
             · rw [hcodeEq, List.length_append, hrestLen]; simp only [s8]; omega
             · simp [s8]
             · refine ⟨?_, by simpa [s8, s7, s6] using hout5, ?_, hrel.nodup, hrel.nonempty⟩
@@ -1176,7 +1422,8 @@ theorem sim_stmt_step {n} (ihB : SimBlock n) (ihW : SimBinds n) (ihI : SimIters 
             · simp [s8, s7]
             · simp [s8, s7]
   | setBlock x filters body =>
-    have hs' : simpleFilters filters = true ∧ simpleBlock body = true := by simpa [simpleStmt] using hs
+    have hs' : simpleFilters filters = true ∧ simpleBlock (pushScope .capture lc).isSome body = true := by
+      simpa [simpleStmt] using hs
     simp only [exec, bind, Except.bind] at hev
     split at hev
     · simp at hev
@@ -1190,47 +1437,81 @@ theorem sim_stmt_step {n} (ihB : SimBlock n) (ihW : SimBinds n) (ihI : SimIters 
         Reach.one (i := .beginCapture) (by rw [hpc]; exact hAt.left.left.left.left.head) (by simp [MJ.Vm.step, s1, hpc])
       have hrel1 : Rel { σ with out := "" } stack s1 :=
         ⟨hrel.frames, ⟨s.outs, rfl⟩, hrel.bound, hrel.nodup, hrel.nonempty⟩
-      obtain ⟨hfl1, s2, r2, hpc2, hst2, hrel2, hout2, htl2, hhd2⟩ :=
-        ihB body ctx stack _ σ1 fl1 hr hs'.2 C (base + 1) a s1
+      have p2 := ihB body ctx stack _ σ1 fl1 hr (pushScope .capture lc) hs'.2 C (base + 1) a s1
           (At.cast hAt.left.left.left.right (by simp)) hoB rfl hrel1
-      subst hfl1
-      simp only at hev
-      obtain ⟨r2out, hr2⟩ := hrel2.out
-      have hr2' : r2out = s.outs := by have := hout2; rw [hr2] at this; simpa [s1] using this
-      subst hr2'
-      -- EndCapture
-      let pB : Nat := base + 1 + (relBlock body (base + 1) a).1.length + 1
-      let pF : Nat := pB + (relFilters filters pB (relBlock body (base + 1) a).2).1.length
-      let s3 : VmState := { s2 with pc := pB, stack := .str σ1.out :: s.stack, outs := s.outs }
-      have hreach3 : Reach ctx C s2 s3 :=
-        Reach.one' (i := .endCapture) _ hAt.left.left.right.head
-          (by simp only [hpc2, List.length_append, List.length_cons, List.length_nil]; omega)
-          (by simp [MJ.Vm.step, hr2, s3, pB, hpc2, hst2, s1])
-      split at hev
-      · simp at hev
-      · rename_i v hv
-        have r4 := ihF filters ctx σ1.heap stack (.str σ1.out) v hv hs'.1 C pB (relBlock body (base + 1) a).2 s3 s.stack
-          (At.cast hAt.left.right (by simp only [pB, List.length_append, List.length_cons, List.length_nil]; omega))
-          hoof rfl rfl (by simpa [s3] using hrel2.env)
-        obtain ⟨cell, rs, hstack⟩ := hrel.nonempty
-        subst hstack
-        simp [topCell] at hev
-        obtain ⟨rfl, rfl⟩ := hev
-        have hrel4 : Rel { heap := σ1.heap, out := σ.out } (cell :: rs) { s3 with pc := pF, stack := v :: s.stack } :=
-          ⟨by simpa [s3] using hrel2.frames, by simpa [s3] using hrel.out, hrel2.bound, hrel.nodup, ⟨cell, rs, rfl⟩⟩
-        let s5 : VmState := { s3 with pc := pF + 1, stack := s.stack, frames := storeLocal x v s2.frames }
-        have hreach5 : Reach ctx C { s3 with pc := pF, stack := v :: s.stack } s5 :=
-          Reach.one' (i := .storeLocal x) _ hAt.right.head
-            (by simp only [pF, pB, List.length_append, List.length_cons, List.length_nil]; omega)
-            (by simp [MJ.Vm.step, s5, s3])
-        refine ⟨by simp, s5, hreach1.trans (r2.trans (hreach3.trans (r4.trans hreach5))), ?_, rfl, ?_, ?_, ?_, ?_⟩
-        · simp only [s5, pF, pB, List.length_append, List.length_cons, List.length_nil]; omega
-        · exact hrel4.store x v s5 rfl rfl
-        · simp [s5, s3]
-        · simp only [s5, storeLocal_tail, htl2]; rfl
-        · simp only [s5, storeLocal_headLoop, hhd2]; rfl
+          (by intro l' hl'
+              cases lc with
+              | none => simp [pushScope] at hl'
+              | some l =>
+                simp only [pushScope, Option.some.injEq] at hl'
+                subst hl'
+                have := hcap l rfl
+                simp only [nCap, s1, List.length_cons]; omega)
+      by_cases hfl1 : fl1 = .normal
+      · subst hfl1
+        simp only [Post, if_true] at p2
+        obtain ⟨s2, r2, hpc2, hst2, hrel2, hout2, htl2, hhd2⟩ := p2
+        simp only at hev
+        obtain ⟨r2out, hr2⟩ := hrel2.out
+        have hr2' : r2out = s.outs := by have := hout2; rw [hr2] at this; simpa [s1] using this
+        subst hr2'
+        -- EndCapture
+        let pB : Nat := base + 1 + (relBlock body (base + 1) a (pushScope .capture lc)).1.1.length + 1
+        let pF : Nat := pB + (relFilters filters pB (relBlock body (base + 1) a (pushScope .capture lc)).1.2).1.length
+        let s3 : VmState := { s2 with pc := pB, stack := .str σ1.out :: s.stack, outs := s.outs }
+        have hreach3 : Reach ctx C s2 s3 :=
+          Reach.one' (i := .endCapture) _ hAt.left.left.right.head
+            (by simp only [hpc2, List.length_append, List.length_cons, List.length_nil]; omega)
+            (by simp [MJ.Vm.step, hr2, s3, pB, hpc2, hst2, s1])
+        split at hev
+        · simp at hev
+        · rename_i v hv
+          have r4 := ihF filters ctx σ1.heap stack (.str σ1.out) v hv hs'.1 C pB
+            (relBlock body (base + 1) a (pushScope .capture lc)).1.2 s3 s.stack
+            (At.cast hAt.left.right (by simp only [pB, List.length_append, List.length_cons, List.length_nil]; omega))
+            hoof rfl rfl (by simpa [s3] using hrel2.env)
+          obtain ⟨cell, rs, hstack⟩ := hrel.nonempty
+          subst hstack
+          simp [topCell] at hev
+          obtain ⟨rfl, rfl⟩ := hev
+          have hrel4 : Rel { heap := σ1.heap, out := σ.out } (cell :: rs) { s3 with pc := pF, stack := v :: s.stack } :=
+            ⟨by simpa [s3] using hrel2.frames, by simpa [s3] using hrel.out, hrel2.bound, hrel.nodup, ⟨cell, rs, rfl⟩⟩
+          let s5 : VmState := { s3 with pc := pF + 1, stack := s.stack, frames := storeLocal x v s2.frames }
+          have hreach5 : Reach ctx C { s3 with pc := pF, stack := v :: s.stack } s5 :=
+            Reach.one' (i := .storeLocal x) _ hAt.right.head
+              (by simp only [pF, pB, List.length_append, List.length_cons, List.length_nil]; omega)
+              (by simp [MJ.Vm.step, s5, s3])
+          simp only [Post, if_true]
+          refine ⟨s5, hreach1.trans (r2.trans (hreach3.trans (r4.trans hreach5))), ?_, rfl, ?_, ?_, ?_, ?_⟩
+          · simp only [s5, pF, pB, List.length_append, List.length_cons, List.length_nil]; omega
+          · exact hrel4.store x v s5 rfl rfl
+          · simp [s5, s3]
+          · simp only [s5, storeLocal_tail, htl2]; rfl
+          · simp only [s5, storeLocal_headLoop, hhd2]; rfl
+      · -- `break` / `continue` inside the block: the capture buffer was dropped on the way out
+        have hev' : σ' = { heap := σ1.heap, out := σ.out } ∧ fl = fl1 := by
+          cases fl1
+          · exact absurd rfl hfl1
+          · simp at hev; exact ⟨hev.1.symm, hev.2.symm⟩
+          · simp at hev; exact ⟨hev.1.symm, hev.2.symm⟩
+        obtain ⟨rfl, rfl⟩ := hev'
+        simp only [Post, hfl1, if_false] at p2 ⊢
+        obtain ⟨l', hl', s3, r3, hpc3, hst3, htl3, hhd3, hout3⟩ := p2
+        cases lc with
+        | none => simp [pushScope] at hl'
+        | some l =>
+          simp only [pushScope, Option.some.injEq] at hl'
+          subst hl'
+          refine ⟨l, rfl, s3, hreach1.trans r3, ?_, ?_, ?_, ?_, ?_⟩
+          · rw [hpc3]; cases fl <;> rfl
+          · rw [hst3]
+          · simpa [nWith, s1] using htl3
+          · simpa [nWith, s1] using hhd3
+          · obtain ⟨rest, hr⟩ := hrel.out
+            rw [hout3]; simp [nCap, s1, hr]
   | filterBlock filters body =>
-    have hs' : simpleFilters filters = true ∧ simpleBlock body = true := by simpa [simpleStmt] using hs
+    have hs' : simpleFilters filters = true ∧ simpleBlock (pushScope .capture lc).isSome body = true := by
+      simpa [simpleStmt] using hs
     simp only [exec, bind, Except.bind] at hev
     split at hev
     · simp at hev
@@ -1244,47 +1525,74 @@ theorem sim_stmt_step {n} (ihB : SimBlock n) (ihW : SimBinds n) (ihI : SimIters 
         Reach.one (i := .beginCapture) (by rw [hpc]; exact hAt.left.left.left.left.head) (by simp [MJ.Vm.step, s1, hpc])
       have hrel1 : Rel { σ with out := "" } stack s1 :=
         ⟨hrel.frames, ⟨s.outs, rfl⟩, hrel.bound, hrel.nodup, hrel.nonempty⟩
-      obtain ⟨hfl1, s2, r2, hpc2, hst2, hrel2, hout2, htl2, hhd2⟩ :=
-        ihB body ctx stack _ σ1 fl1 hr hs'.2 C (base + 1) a s1
+      have p2 := ihB body ctx stack _ σ1 fl1 hr (pushScope .capture lc) hs'.2 C (base + 1) a s1
           (At.cast hAt.left.left.left.right (by simp)) hoB rfl hrel1
-      subst hfl1
-      simp only at hev
-      obtain ⟨r2out, hr2⟩ := hrel2.out
-      have hr2' : r2out = s.outs := by have := hout2; rw [hr2] at this; simpa [s1] using this
-      subst hr2'
-      -- EndCapture
-      let pB : Nat := base + 1 + (relBlock body (base + 1) a).1.length + 1
-      let pF : Nat := pB + (relFilters filters pB (relBlock body (base + 1) a).2).1.length
-      let s3 : VmState := { s2 with pc := pB, stack := .str σ1.out :: s.stack, outs := s.outs }
-      have hreach3 : Reach ctx C s2 s3 :=
-        Reach.one' (i := .endCapture) _ hAt.left.left.right.head
-          (by simp only [hpc2, List.length_append, List.length_cons, List.length_nil]; omega)
-          (by simp [MJ.Vm.step, hr2, s3, pB, hpc2, hst2, s1])
-      split at hev
-      · simp at hev
-      · rename_i v hv
-        have r4 := ihF filters ctx σ1.heap stack (.str σ1.out) v hv hs'.1 C pB (relBlock body (base + 1) a).2 s3 s.stack
-          (At.cast hAt.left.right (by simp only [pB, List.length_append, List.length_cons, List.length_nil]; omega))
-          hoof rfl rfl (by simpa [s3] using hrel2.env)
-        simp at hev
-        obtain ⟨rfl, rfl⟩ := hev
-        let s5 : VmState := { s3 with pc := pF + 1, stack := s.stack, outs := MJ.Vm.appendOut (render v) s.outs }
-        have hreach5 : Reach ctx C { s3 with pc := pF, stack := v :: s.stack } s5 :=
-          Reach.one' (i := .emit) _ hAt.right.head
-            (by simp only [pF, pB, List.length_append, List.length_cons, List.length_nil]; omega)
-            (by simp [MJ.Vm.step, s5, s3])
-        obtain ⟨rest0, hr0⟩ := hrel.out
-        refine ⟨by simp, s5, hreach1.trans (r2.trans (hreach3.trans (r4.trans hreach5))), ?_, rfl, ?_, ?_, ?_, ?_⟩
-        · simp only [s5, pF, pB, List.length_append, List.length_cons, List.length_nil]; omega
-        · exact ⟨by simpa [s5, s3] using hrel2.frames, ⟨rest0, by simp [s5, hr0, MJ.Vm.appendOut]⟩, hrel2.bound, hrel.nodup, hrel.nonempty⟩
-        · simp [s5, hr0, MJ.Vm.appendOut]
-        · simp only [s5, s3, htl2]; rfl
-        · simp only [s5, s3, hhd2]; rfl
-  | macroS _ _ _ _ _ => simp [simpleStmt] at hs
-  | callBlock _ _ _ _ _ _ => simp [simpleStmt] at hs
-  | breakS => simp [simpleStmt] at hs
-  | continueS => simp [simpleStmt] at hs
-
+          (by intro l' hl'
+              cases lc with
+              | none => simp [pushScope] at hl'
+              | some l =>
+                simp only [pushScope, Option.some.injEq] at hl'
+                subst hl'
+                have := hcap l rfl
+                simp only [nCap, s1, List.length_cons]; omega)
+      by_cases hfl1 : fl1 = .normal
+      · subst hfl1
+        simp only [Post, if_true] at p2
+        obtain ⟨s2, r2, hpc2, hst2, hrel2, hout2, htl2, hhd2⟩ := p2
+        simp only at hev
+        obtain ⟨r2out, hr2⟩ := hrel2.out
+        have hr2' : r2out = s.outs := by have := hout2; rw [hr2] at this; simpa [s1] using this
+        subst hr2'
+        -- EndCapture
+        let pB : Nat := base + 1 + (relBlock body (base + 1) a (pushScope .capture lc)).1.1.length + 1
+        let pF : Nat := pB + (relFilters filters pB (relBlock body (base + 1) a (pushScope .capture lc)).1.2).1.length
+        let s3 : VmState := { s2 with pc := pB, stack := .str σ1.out :: s.stack, outs := s.outs }
+        have hreach3 : Reach ctx C s2 s3 :=
+          Reach.one' (i := .endCapture) _ hAt.left.left.right.head
+            (by simp only [hpc2, List.length_append, List.length_cons, List.length_nil]; omega)
+            (by simp [MJ.Vm.step, hr2, s3, pB, hpc2, hst2, s1])
+        split at hev
+        · simp at hev
+        · rename_i v hv
+          have r4 := ihF filters ctx σ1.heap stack (.str σ1.out) v hv hs'.1 C pB
+            (relBlock body (base + 1) a (pushScope .capture lc)).1.2 s3 s.stack
+            (At.cast hAt.left.right (by simp only [pB, List.length_append, List.length_cons, List.length_nil]; omega))
+            hoof rfl rfl (by simpa [s3] using hrel2.env)
+          simp at hev
+          obtain ⟨rfl, rfl⟩ := hev
+          let s5 : VmState := { s3 with pc := pF + 1, stack := s.stack, outs := MJ.Vm.appendOut (render v) s.outs }
+          have hreach5 : Reach ctx C { s3 with pc := pF, stack := v :: s.stack } s5 :=
+            Reach.one' (i := .emit) _ hAt.right.head
+              (by simp only [pF, pB, List.length_append, List.length_cons, List.length_nil]; omega)
+              (by simp [MJ.Vm.step, s5, s3])
+          obtain ⟨rest0, hr0⟩ := hrel.out
+          simp only [Post, if_true]
+          refine ⟨s5, hreach1.trans (r2.trans (hreach3.trans (r4.trans hreach5))), ?_, rfl, ?_, ?_, ?_, ?_⟩
+          · simp only [s5, pF, pB, List.length_append, List.length_cons, List.length_nil]; omega
+          · exact ⟨by simpa [s5, s3] using hrel2.frames, ⟨rest0, by simp [s5, hr0, MJ.Vm.appendOut]⟩, hrel2.bound, hrel.nodup, hrel.nonempty⟩
+          · simp [s5, hr0, MJ.Vm.appendOut]
+          · simp only [s5, s3, htl2]; rfl
+          · simp only [s5, s3, hhd2]; rfl
+      · have hev' : σ' = { heap := σ1.heap, out := σ.out } ∧ fl = fl1 := by
+          cases fl1
+          · exact absurd rfl hfl1
+          · simp at hev; exact ⟨hev.1.symm, hev.2.symm⟩
+          · simp at hev; exact ⟨hev.1.symm, hev.2.symm⟩
+        obtain ⟨rfl, rfl⟩ := hev'
+        simp only [Post, hfl1, if_false] at p2 ⊢
+        obtain ⟨l', hl', s3, r3, hpc3, hst3, htl3, hhd3, hout3⟩ := p2
+        cases lc with
+        | none => simp [pushScope] at hl'
+        | some l =>
+          simp only [pushScope, Option.some.injEq] at hl'
+          subst hl'
+          refine ⟨l, rfl, s3, hreach1.trans r3, ?_, ?_, ?_, ?_, ?_⟩
+          · rw [hpc3]; cases fl <;> rfl
+          · rw [hst3]
+          · simpa [nWith, s1] using htl3
+          · simpa [nWith, s1] using hhd3
+          · obtain ⟨rest, hr⟩ := hrel.out
+            rw [hout3]; simp [nCap, s1, hr]
 
 theorem sim_stmt_all : ∀ n, SimStmt n ∧ SimBlock n ∧ SimBinds n ∧ SimIters n ∧ SimFilters n := by
   intro n
@@ -1301,8 +1609,9 @@ theorem sim_stmt_all : ∀ n, SimStmt n ∧ SimBlock n ∧ SimBinds n ∧ SimIte
 
 /-- the fragment of stage 3: text, `{{ e }}`, `set` (incl. unpacking), set-blocks and filter-blocks
 with filter chains, `if`/`elif`/`else`, `with`, `for … if … else` with unpacking targets and loop
-filter (no `break`/`continue`) over every expression form except calls and keyword arguments -/
-def Fragment (prog : List Stmt) : Prop := simpleBlock prog = true
+filter, `break` and `continue` (inside loops) over every expression form except calls and keyword
+arguments -/
+def Fragment (prog : List Stmt) : Prop := simpleBlock false prog = true
 
 /-- **`vm_refines_eval_partial`**: for every template of the fragment and every context, if the
 reference semantics renders it to `out`, then the model VM, run on the code the model code
@@ -1311,31 +1620,42 @@ theorem vm_refines_eval_partial (prog : List Stmt) (hfrag : Fragment prog) (ctx 
     (hcode : compileTemplate prog = some code) (fuel : Nat) (out : String)
     (hev : renderTemplate fuel ctx prog = .ok out) :
     ∃ k, ∀ j, renderCode (k + j) ctx code = .ok out := by
-  have heq := cBlock_eq_rel prog {} hfrag
+  have heq : cBlock prog {} = ({} : CG).extend (relBlock prog 0 {} none).1 := by
+    have h := cBlock_eq_rel prog {} none hfrag trivial
+    rw [h, CG.withBreaks_eq]
+    simp [foldl_addBreakJump_nil, CG.extend, CG.next, setExit]
   simp only [compileTemplate] at hcode
   split at hcode
   · simp at hcode
   · rename_i hcond
     simp at hcode
-    have hoof : (relBlock prog 0 {}).2.oof = false := by
+    have hoof : (relBlock prog 0 {} none).1.2.oof = false := by
       have : (cBlock prog {}).oof = false := by
         simp only [Bool.or_eq_true, not_or] at hcond
         simpa using hcond.1
       rw [heq] at this
       simpa [CG.oof, CG.extend, CG.next] using this
-    have hc : code = (relBlock prog 0 {}).1 := by
+    have hc : code = (relBlock prog 0 {} none).1.1 := by
       rw [← hcode, heq]; simp [CG.extend, CG.next]
     simp only [renderTemplate] at hev
     split at hev
     · rename_i σ fl hexec
       simp at hev; subst hev
-      have hAt : At code 0 (relBlock prog 0 {}).1 := by
+      have hAt : At code 0 (relBlock prog 0 {} none).1.1 := by
         rw [hc]; intro k _; simp
       have hrel0 : Rel { heap := [[]], out := "" } [0] ({} : VmState) := by
         refine ⟨?_, ⟨[], rfl⟩, by simp, by simp, ⟨0, [], rfl⟩⟩
         exact ⟨⟨[], by simp, by intro x; simp [assocGet, frameLookup]⟩, trivial⟩
-      obtain ⟨_, s', hreach, hpc, _, hrel', hout, _, _⟩ :=
-        (sim_stmt_all fuel).2.1 prog ctx [0] _ σ fl hexec hfrag code 0 {} {} hAt hoof rfl hrel0
+      have p := (sim_stmt_all fuel).2.1 prog ctx [0] _ σ fl hexec none hfrag code 0 {} {} hAt hoof rfl hrel0
+        (by intro l hl; cases hl)
+      have hfl : fl = .normal := by
+        cases fl with
+        | normal => rfl
+        | brk => simp [Post] at p
+        | cont => simp [Post] at p
+      subst hfl
+      simp only [Post, if_true] at p
+      obtain ⟨s', hreach, hpc, _, hrel', hout, _, _⟩ := p
       have hend : code[s'.pc]? = none := by
         rw [hpc, hc]; simp
       obtain ⟨k, hk⟩ := hreach.toRun hend
